@@ -189,6 +189,9 @@ class Built:
             meta = utils.get_meta(f)
             metas.append(json.loads(json.dumps(meta, default=lambda o: getattr(o, '__name__', None) or repr(o))))
         snap['meta'] = metas
+        # the function objects themselves: their annotations and signature
+        import inspect as _inspect
+        snap['funcs'] = [[sorted((k, repr(v)) for k, v in f.__annotations__.items()), str(_inspect.signature(f)), f.__doc__] for f in self.funcs]
         if hasattr(self, 'info'):
             snap['info'] = repr(self.info)
             snap['tags'] = repr(self.tags)
